@@ -187,7 +187,7 @@ func Run(c *core.Ctx) {
 	if c.Thorough() {
 		cfgName = "MCSubsThorough.cfg"
 	}
-	core.ModelMustHold(c, core.ModelCheck(c, "MCSubs", cfgName, core.TLCOpts{}), "MCSubs")
+	core.ModelMustHold(c, core.ModelCheck(c, "MCSubs", cfgName, core.TLCOpts{Timeout: 40 * time.Minute}), "MCSubs")
 
 	rng := rand.New(rand.NewSource(c.Seed))
 	var cfgs []config
